@@ -59,6 +59,8 @@ TYPES = [
     ("t/a", [("record", "a"), ("record", "c"), ("record", "d")]),
     ("t/ts", [("datetime", "ts"), ("record", "a"), ("datetime", "when")]),
     ("t/b", [("record", "d"), ("record", "a")]),
+    # same name AND same field names as the first one, another type for b (a cache keyed by name and field names goes stale)
+    ("t/a", [("record", "a"), ("record", "b"), ("record", "c")]),
 ]
 TYPED = {"record": "varint"}  # replay uses coercing types
 
@@ -703,14 +705,16 @@ def obligations(tier, seed):
     combos = []
     for f in F_OPTS:
         for x in X_OPTS:
-            for rs, rc in ((None, None), ("S2", None), (None, "C2"), ("", "C2")):
+            for rs, rc in ((None, None), ("S2", None), (None, "C2"), ("", "C2"), ("S2", "")):
                 for multi in (False, True):
                     combos.append({"fields": f, "exclude": x, "rsource": rs, "rclass": rc, "multi": multi})
     if tier == "quick":
         keep = [c for c in combos if (c["rsource"], c["rclass"]) in ((None, None), ("S2", None))] + rnd.sample([c for c in combos if c["rclass"]], 16)
+        # an override given as the empty string is an override too (always kept: one per option, with and without a projection)
+        keep += [c for c in combos if "" in (c["rsource"], c["rclass"]) and not c["multi"] and c["exclude"] == X_OPTS[0] and c["fields"] in (F_OPTS[0], F_OPTS[1]) and c not in keep]
         combos = keep
     for i, c in enumerate(combos):
-        cfg = dict(c, srcs=[(2, "ok"), (1, "ok")], types=[0, 1, 2] if not c["multi"] else [2, 0, 1], all_match=bool(i % 5))
+        cfg = dict(c, srcs=[(2, "ok"), (1, "ok")], types=([0, 4, 1] if i % 2 else [0, 1, 2]) if not c["multi"] else [2, 0, 4], all_match=bool(i % 5))
         tag = f"F{'+'.join(c['fields']) if c['fields'] else '-'}.X{'+'.join(c['exclude']) if c['exclude'] else '-'}.{'s' if c['rsource'] is not None else ''}{'c' if c['rclass'] is not None else ''}{'m' if c['multi'] else ''}.{i}"
         obs.append(ob("O3-options/" + tag, "xh", "pipeline", {"cfg": cfg}, timeout=to, group="O3-options", bounds="skip, count symbolic; every outcome vector; option set fixed by the driver"))
     # O4 list mode writes nothing
